@@ -35,7 +35,7 @@ func (c08) Rule() string {
 		"distinct by (mode, skip, classes of unresolvable references and holder kinds, fault kinds fired, documents spanned)."
 }
 
-var c08Kinds = []string{sim.FRefuse, sim.FTorn, sim.FFlip, sim.FIllTyped, sim.FTrail}
+var c08Kinds = []string{sim.FRefuse, sim.FTorn, sim.FFlip, sim.FIllTyped, sim.FTrail, sim.FEmpty}
 
 // exactFault keeps a fault only if the exact oracle can model it: flips must break the JSON
 // syntax (a flip that leaves valid JSON may leave the normal form), ill-typed answers must not
